@@ -1,5 +1,6 @@
 import Driver.Common
 import Model.Stats
+import Model.StatsReports
 open Lean Drv Stats
 
 /-! JSON-lines driver of the C08 model (Model/Stats.lean on `Float`). -/
@@ -97,6 +98,19 @@ def parseGLabel (s : String) : Except String GLabel :=
   | some l => pure l
   | none => throw "unknown-statistic"
 
+def txtJson (fmt : GLabel → Fmt) (lab : GLabel → String) : Txt (GLabel × GVal Float) → Json
+  | .error => Json.mkObj [("error_text", jBool true)]
+  | .ok items => Json.mkObj [("items", jArr (items.map fun (l, v) =>
+      jArr [jStr (lab l), gvalJson v, jStr (fmt l).code]))]
+
+def f12Json (raw : Raw Float) (rep : Rep Float) (tbl : List (List Float)) (rob : Bool) : Json :=
+  Json.mkObj [
+    ("coef", jArr ((List.range rep.K).map fun k =>
+      let c := f12Coef rep rob k
+      jArr [jBool c.1, fbits c.2.1, fbits c.2.2])),
+    ("stats", jArr [jNat (f12Stats raw).1, jOptF (f12Stats raw).2.1, fbits (f12Stats raw).2.2]),
+    ("corr", jFloats (f12CorrOf tbl rob))]
+
 def handle (j : Json) : Except String Json := do
   let op ← getStr j "op"
   match op with
@@ -168,6 +182,42 @@ def handle (j : Json) : Except String Json := do
       pure (Json.mkObj [("refused", jBool false), ("stat", fbits stat), ("df", jInt df),
         ("llU", fbits llU), ("llR", fbits llR), ("kU", jInt kU), ("kR", jInt kR),
         ("reject", match thr with | some t => jBool (lrReject stat t) | none => Json.null)])
+  | "text" =>
+    let raw ← parseRaw (← j.getObjVal? "raw")
+    let rep ← parseRep (← j.getObjVal? "rep")
+    let tbl := secondOrderTable rep
+    pure (Json.mkObj [
+      ("print_general", txtJson GLabel.format GLabel.render (printGeneral raw)),
+      ("short", txtJson GLabel.textFormat GLabel.textLabel (shortSummary raw)),
+      ("str_stats", txtJson GLabel.textFormat GLabel.textLabel (strStats raw)),
+      ("beta_lines", jArr ((List.range rep.K).map fun k => jFloats ((betaLine rep k).map (·.2)))),
+      ("pair_lines", jArr (tbl.map fun v => jFloats (strPairLineOf v))),
+      ("html_general", jArr ((htmlGeneral raw).map fun (l, v) =>
+        jArr [jStr l.render, gvalJson v, jStr l.format.code])),
+      ("html_pair_names", jArr ((pairs rep.K).map fun (i, j) =>
+        jArr [jChars (htmlPairNames rep i j).1, jChars (htmlPairNames rep i j).2])),
+      ("f12_robust", f12Json raw rep tbl true),
+      ("f12_classical", f12Json raw rep tbl false)])
+  | "lr_results" =>
+    let self ← parseRaw (← j.getObjVal? "self")
+    let other ← parseRaw (← j.getObjVal? "other")
+    match lrOnResults self other with
+    | .refused => pure (Json.mkObj [("refused", jBool true)])
+    | .ok stat df llU llR kU kR =>
+      pure (Json.mkObj [("refused", jBool false), ("stat", fbits stat), ("df", jInt df),
+        ("llU", fbits llU), ("llR", fbits llR), ("kU", jInt kU), ("kR", jInt kR)])
+  | "subset" =>
+    let rep ← parseRep (← j.getObjVal? "rep")
+    let sub := (← strList (← j.getObjVal? "subset")).map String.toList
+    pure (Json.mkObj [("rows", tableJson (corrTableSubset rep sub))])
+  | "sens" =>
+    let names := (← strList (← j.getObjVal? "names")).map String.toList
+    let req := (← strList (← j.getObjVal? "req")).map String.toList
+    let S ← getMat j "S"
+    match sensDraws names req S with
+    | none => pure (Json.mkObj [("unknown_name", jBool true)])
+    | some rows => pure (Json.mkObj [("rows", jArr (rows.map fun row =>
+        jArr (row.map fun (n, v) => jArr [jChars n, fbits v])))])
   | "pvalue" =>
     let ts ← floatList (← j.getObjVal? "t")
     pure (Json.mkObj [("p", jFloats (ts.map pOf))])
